@@ -750,6 +750,33 @@ func c12Aspects(yield func(c12Case) bool) {
 			}
 		}
 	}
+	// the same inconsistency several times over: k options of a kind on both sides, each pair differing in the same
+	// way - k identical problems, each of which is logged and counted
+	for _, kind := range []string{"rdnss", "dnssl", "route"} {
+		for k := 2; k <= 3; k++ {
+			var a, b vRA
+			a.Hop, b.Hop = 64, 64
+			for i := 0; i < k; i++ {
+				switch kind {
+				case "rdnss":
+					a.Opts = append(a.Opts, vOpt{Kind: kind, LifeS: 1800, Servers: c12Servers[0]})
+					b.Opts = append(b.Opts, vOpt{Kind: kind, LifeS: 600, Servers: c12Servers[0]})
+				case "dnssl":
+					a.Opts = append(a.Opts, vOpt{Kind: kind, LifeS: 1800, Domains: c12Domains[0]})
+					b.Opts = append(b.Opts, vOpt{Kind: kind, LifeS: 600, Domains: c12Domains[0]})
+				default:
+					// (our configuration cannot repeat a route, the other router can: one of ours against k of theirs)
+					if i == 0 {
+						a.Opts = append(a.Opts, vOpt{Kind: kind, Prefix: "2001:db8:3::/48", LifeS: 1800})
+					}
+					b.Opts = append(b.Opts, vOpt{Kind: kind, Prefix: "2001:db8:3::/48", LifeS: 600})
+				}
+			}
+			if !yield(c12Case{Ours: a, Theirs: b}) {
+				return
+			}
+		}
+	}
 }
 
 // --- the own RA follows the system ----------------------------------------------
